@@ -10,6 +10,7 @@ import (
 	"strings"
 
 	"github.com/gobwas/ws"
+	"github.com/gobwas/ws/wsflate"
 	"github.com/gobwas/ws/wsutil"
 )
 
@@ -81,7 +82,8 @@ func (r *rng) bool() bool        { return r.next()&1 == 1 }
 
 var errBoom = errors.New("boom")
 
-// chunkReader returns at most k bytes per Read (k == 0: as many as fit), then fin.
+// chunkReader serves data in fixed chunks of k bytes (k == 0: one chunk); a Read returns at most the
+// rest of the current chunk, then fin.
 type chunkReader struct {
 	data []byte
 	k    int
@@ -97,8 +99,8 @@ func (c *chunkReader) Read(p []byte) (int, error) {
 		return 0, nil
 	}
 	n := len(c.data) - c.pos
-	if c.k > 0 && n > c.k {
-		n = c.k
+	if c.k > 0 && n > c.k-c.pos%c.k {
+		n = c.k - c.pos%c.k // fixed chunk boundaries at multiples of k, like the model's Src
 	}
 	if n > len(p) {
 		n = len(p)
@@ -150,6 +152,9 @@ func classify(err error) string {
 	}
 	var pe ws.ProtocolError
 	if errors.As(err, &pe) {
+		if n, ok := protoNames[pe]; ok {
+			return "proto:" + n
+		}
 		return "proto:" + strings.ReplaceAll(string(pe), " ", "_")
 	}
 	var ce wsutil.ClosedError
@@ -157,6 +162,23 @@ func classify(err error) string {
 		return fmt.Sprintf("closed:%d:%s", ce.Code, hx([]byte(ce.Reason)))
 	}
 	return "other:" + strings.ReplaceAll(err.Error(), " ", "_")
+}
+
+var protoNames = map[ws.ProtocolError]string{
+	ws.ErrProtocolOpCodeReserved:             "ErrProtocolOpCodeReserved",
+	ws.ErrProtocolControlPayloadOverflow:     "ErrProtocolControlPayloadOverflow",
+	ws.ErrProtocolControlNotFinal:            "ErrProtocolControlNotFinal",
+	ws.ErrProtocolNonZeroRsv:                 "ErrProtocolNonZeroRsv",
+	ws.ErrProtocolMaskRequired:               "ErrProtocolMaskRequired",
+	ws.ErrProtocolMaskUnexpected:             "ErrProtocolMaskUnexpected",
+	ws.ErrProtocolContinuationExpected:       "ErrProtocolContinuationExpected",
+	ws.ErrProtocolContinuationUnexpected:     "ErrProtocolContinuationUnexpected",
+	ws.ErrProtocolStatusCodeNotInUse:         "ErrProtocolStatusCodeNotInUse",
+	ws.ErrProtocolStatusCodeApplicationLevel: "ErrProtocolStatusCodeApplicationLevel",
+	ws.ErrProtocolStatusCodeNoMeaning:        "ErrProtocolStatusCodeNoMeaning",
+	ws.ErrProtocolStatusCodeUnknown:          "ErrProtocolStatusCodeUnknown",
+	ws.ErrProtocolInvalidUTF8:                "ErrProtocolInvalidUTF8",
+	wsflate.ErrUnexpectedCompressionBit:      "ErrUnexpectedCompressionBit",
 }
 
 // guard runs f and converts a panic into a string.
